@@ -58,6 +58,13 @@ OrigCase(v, f, e, sid, sub, shape) ==
                 [] shape = 2 -> <<[op |-> "remove", cls |-> 2, idx |-> <<>>]>>
                 [] shape = 3 -> <<[op |-> "select", cls |-> 0, idx |-> <<2, 1>>]>>]
 
+\* RELION-4 style numbering that restarts in every tomogram: the two rows carry the SAME subtomogram number (tomograms 3
+\* and 17) and any half-set assignment (also 2 before 1, or one half-set only)
+RestartCase(v, f, e, sid, subs) ==
+    [mode |-> "import", v |-> v, px |-> <<27, 20>>, fmt |-> f,
+     rin |-> <<Rin(<<16, 24, 40>>, <<-9, 4, 24>>, e, 3, sid, subs[1], 2, v, <<27, 20>>),
+               Rin(<<24, 8, 16>>, <<4, -4, 1>>, <<1, 1, 2>>, 17, sid, subs[2], 3, v, <<27, 20>>)>>]
+
 \* a merged list: the two rows have different pixel sizes (taken from the data, per particle)
 OtherPx(px) == IF px = <<2, 1>> THEN <<27, 20>> ELSE <<2, 1>>
 MixedPxCase(v, px, e, sid) ==
@@ -78,6 +85,8 @@ MCInit(quick) ==
        \/ \E v \in {30, 31, 40} : \E f \in Formats(v, quick) : \E e \in Triples, sid \in {7, 12}, sub \in {1, 2}, shape \in 1..3 :
               cs = OrigCase(v, f, e, sid, sub, shape)
        \/ \E v \in {30, 31, 40}, px \in PxSet, e \in Triples, sid \in {7, 12} : cs = MixedPxCase(v, px, e, sid)
+       \/ \E v \in {30, 31, 40} : \E f \in Formats(v, quick) : \E e \in Triples, sid \in {1, 12}, subs \in {<<2, 1>>, <<1, 2>>, <<2, 2>>} :
+              cs = RestartCase(v, f, e, sid, subs)
     /\ Start
 
 QuickInit == MCInit(TRUE)
